@@ -21,6 +21,8 @@ import (
 //   M reporter:power:metaId:queryId:total:delegator.validator.amount+…   one per report accepted in this block
 func init() {
 	register(&Family{Name: "repstake", Gen: genRepStakeHist, Run: runRepStakeHist})
+	// C09, C04: the same histories; the stake snapshot a report records (what DivvyingTips splits a reward by) sums to its total
+	register(&Family{Name: "snapshotsum", Gen: genRepStakeHist, Run: runRepStakeHist})
 }
 
 func (c *Chain) valName(valAddr []byte) string {
